@@ -423,11 +423,6 @@ Qed.
 Lemma sync_model_matches_source : model_fallible_calls = sync_fallible_calls.
 Proof. vm_compute; reflexivity. Qed.
 
-(* the ten calls of [sync_steps] are in the textual order of the source *)
-Lemma sync_steps_in_source_order :
-  map (fun s => rank (step_name s) sync_phases) sync_steps = seq 1 10.
-Proof. vm_compute; reflexivity. Qed.
-
 (* is the result of this call examined, according to the generated facts? (false if not listed) *)
 Fixpoint lookup_checked (n : string) (l : list (string * bool)) : bool :=
   match l with
